@@ -417,15 +417,19 @@ func (d *TD) overlapDelivery(t *pt.Table, pre *PState) {
 		}
 	})
 	a.SetRunner(ob)
-	done := make(chan struct{}, 2)
+	done := make(chan struct{}, 3)
 	go func() { ad.UpdateTableState(t); done <- struct{}{} }()
 	select {
 	case <-entered:
 	case <-time.After(time.Second):
 		return
 	}
+	// two more updates queue up behind the busy handler (one after the other, so the adapter has seen both before the
+	// first of them is handled): each must reach the observer as its own filtered copy
 	go func() { ad.UpdateTableState(t); done <- struct{}{} }()
-	for i := 0; i < 2; i++ {
+	time.Sleep(2 * time.Millisecond)
+	go func() { ad.UpdateTableState(t); done <- struct{}{} }()
+	for i := 0; i < 3; i++ {
 		select {
 		case <-done:
 		case <-time.After(2 * time.Second):
